@@ -13,11 +13,14 @@ import (
 	"bytes"
 	"fmt"
 	"io"
+	"math/rand"
 	"net"
 	"os"
 	"path/filepath"
 	"sort"
 	"strings"
+	"sync"
+	"sync/atomic"
 
 	go9p "github.com/rminnich/go9p"
 )
@@ -55,10 +58,15 @@ type ufsSession struct {
 }
 
 func newUfsSession(root string, msize uint32, dotu bool) (*ufsSession, error) {
+	return newUfsSessionM(root, 1<<20, msize, dotu)
+}
+
+// the server offers srvMsize, the client proposes msize: the smaller one is in force
+func newUfsSessionM(root string, srvMsize, msize uint32, dotu bool) (*ufsSession, error) {
 	u := new(go9p.Ufs)
 	u.Root = root
 	u.Dotu = true
-	u.Msize = 1 << 20
+	u.Msize = srvMsize
 	u.Id = "ufs"
 	u.Log = sharedLogger()
 	if !u.Start(u) {
@@ -164,7 +172,15 @@ func modeUfsIO(tier string, args []string) {
 		// a second file open at the same time (many files open at once)
 		other := filepath.Join(root, name+".other")
 		_ = os.WriteFile(other, []byte("other file, must not change"), 0o644)
-		s, err := newUfsSession(root, msize, dotu)
+		// in every fourth case it is the SERVER that lowers msize: the client proposes 64 KiB
+		var s *ufsSession
+		var err error
+		if c%4 == 3 && msize < 65536 {
+			s, err = newUfsSessionM(root, msize, 65536, dotu)
+			stat("ufsio.server_lowers_msize", 1)
+		} else {
+			s, err = newUfsSession(root, msize, dotu)
+		}
 		if err != nil {
 			emit("IO %d %d 0 - 0 ; FINAL - V 0", msize, b2i(dotu))
 			continue
@@ -177,6 +193,35 @@ func modeUfsIO(tier string, args []string) {
 			continue
 		}
 		iounit := f.Fid.Iounit
+		// several goroutines read one open file at the same time (io.ReaderAt allows it): positional reads
+		if flen > 64 && c%3 == 0 {
+			var wg sync.WaitGroup
+			var bad int32
+			for g := 0; g < 6; g++ {
+				wg.Add(1)
+				seedg := int64(c*131 + g)
+				go func() {
+					defer wg.Done()
+					lr := rand.New(rand.NewSource(seedg))
+					for k := 0; k < 6; k++ {
+						off := lr.Intn(flen)
+						cnt := 1 + lr.Intn(int(iounit))
+						buf := make([]byte, cnt)
+						n, _ := f.ReadAt(buf, int64(off))
+						want := content[off:]
+						if len(want) > cnt {
+							want = want[:cnt]
+						}
+						if n != len(want) || !bytes.Equal(buf[:n], want) {
+							atomic.AddInt32(&bad, 1)
+						}
+					}
+				}()
+			}
+			wg.Wait()
+			emit("IOC %d %d %d READS 36 WRONG %d", msize, b2i(dotu), flen, bad)
+			stat("ufsio.concurrent_read_cases", 1)
+		}
 		var sb strings.Builder
 		nops := 6 + rng.Intn(10)
 		cur := append([]byte{}, content...)
